@@ -84,10 +84,14 @@ func c06(c *core.Ctx) {
 	// ---------------------------------------------------------------- R2
 	if c.Rule("R2", "what crosses is a copy: frame.data is only ever a Clone result or the handler's returned response; a received frame.data is only nil-tested, printed, or used as the source of Cloner.Copy", 6) {
 		for _, fn := range p.LibFuncs("inprocgrpc") {
-			core.Instrs(fn, func(in ssa.Instruction) {
-				// stores into frame.data
-				if st, ok := in.(*ssa.Store); ok {
-					if base, f, isF := core.FieldOf(st.Addr); isF && f == "data" && core.NamedOf(base.Type()) == "frame" {
+			// what is put into frame.data (composite literals, assignments, frame constructors)
+			for _, fs := range frameFieldSets(fn, "data") {
+				{
+					{
+						st := struct {
+							Val ssa.Value
+							pos token.Pos
+						}{fs.Val, fs.At.Pos()}
 						key := core.FuncName(fn) + ":frame.data<-"
 						okv := core.AllOrigins(st.Val, func(o ssa.Value) bool {
 							call, idx, ok := core.CallResult(o)
@@ -102,9 +106,11 @@ func c06(c *core.Ctx) {
 							}
 							return false
 						})
-						c.Check(okv, key, st.Pos(), "value is a Cloner.Clone result or the unary handler's returned response", "a message is put into a frame without being cloned: both goroutines would share the object")
+						c.Check(okv, key, st.pos, "value is a Cloner.Clone result or the unary handler's returned response", "a message is put into a frame without being cloned: both goroutines would share the object")
 					}
 				}
+			}
+			core.Instrs(fn, func(in ssa.Instruction) {
 				// loads of frame.data
 				var loaded ssa.Value
 				switch x := in.(type) {
